@@ -547,6 +547,15 @@ func (fr *frame) block(b *ssa.BasicBlock, st *State, li *loopInfo) {
 		case *ssa.MakeSlice:
 			fr.vals[x] = fr.makeSlice(x, st)
 		case *ssa.MakeClosure:
+			// a bound method value (recv.Method) is identified with the method, like a method expression
+			if w, ok := x.Fn.(*ssa.Function); ok && strings.HasSuffix(w.Name(), "$bound") && len(x.Bindings) == 1 {
+				if obj, isf := w.Object().(*types.Func); isf {
+					if m := fx.E.P.SSA.FuncValue(obj); m != nil {
+						fr.vals[x] = IntV(fx.funcID(FuncName(m)), x.Type())
+						break
+					}
+				}
+			}
 			id := fx.enc.Decl("closure", "Int")
 			fx.enc.Assume(Gt(id, "0"))
 			fr.vals[x] = IntV(id, x.Type())
